@@ -241,11 +241,27 @@ async fn run_session<T: RequestHandler>(
     socket: tokio::net::TcpStream,
     addr: SocketAddr,
     mut handler: TcpServerConnectionHandler,
-    decode: DecodeLevel,
+    mut decode: DecodeLevel,
     handlers: ServerHandlerMap<T>,
-    commands: tokio::sync::mpsc::Receiver<ServerCommand>,
+    mut commands: tokio::sync::mpsc::Receiver<ServerCommand>,
 ) {
-    match handler.handle(socket).await {
+    // e.g. a TLS handshake: a peer that stalls in it must not keep the session alive
+    // once the server was shut down or the session was evicted
+    let result = {
+        let mut handshake = Box::pin(handler.handle(socket));
+        loop {
+            tokio::select! {
+                biased;
+                res = &mut handshake => break res,
+                cmd = commands.recv() => match cmd {
+                    None | Some(ServerCommand::Shutdown) => return,
+                    Some(ServerCommand::ChangeDecoding(level)) => decode = level,
+                }
+            }
+        }
+    };
+
+    match result {
         Err(err) => {
             tracing::warn!("error from {}: {}", addr, err);
         }
